@@ -1113,11 +1113,76 @@ Proof.
       * inversion E; subst. fin3q G1.
 Qed.
 
+Lemma heap_ok_set_locked G h l b : heap_ok G h -> heap_ok G (upd_nth h l (set_locked b)).
+Proof.
+  intros H. destruct (nth_error h l) as [cl|] eqn:E.
+  - eapply heap_ok_upd; eauto. destruct (proj2 H _ _ E) as (t & env & r & O1 & O2 & O3 & O4).
+    exists t, env, r. cbn. auto.
+  - split; [rewrite upd_nth_length; apply H|]. intros l' c' E'. rewrite nth_error_upd_nth in E'.
+    destruct (Nat.eqb_spec l l') as [<-|N]; [rewrite E in E'; discriminate|]. now apply H.
+Qed.
+
+(* eval_record_spine keeps the heap sound *)
+Lemma spine_heap_ok d : forall k G h l t rt r h' k',
+  heap_ok G h -> clean h -> nth_error G l = Some (t, rt) ->
+  spine_with true unwind d k h l = (r, (h', k')) ->
+  exists G', ext G G' /\ heap_ok G' h'.
+Proof.
+  induction d as [|d IH]; intros k G h l t rt r h' k' H C GL E; cbn in E.
+  - inversion E; subst. exists G. split; auto using ext_refl.
+  - destruct (nth_error h l) as [cl|] eqn:Ecl.
+    2:{ inversion E; subst. exists G. split; auto using ext_refl. }
+    destruct (locked cl) eqn:LK.
+    { inversion E; subst. exists G. split; auto using ext_refl. }
+    set (h1 := upd_nth h l (set_locked true)) in *.
+    assert (H1 : heap_ok G h1) by now apply heap_ok_set_locked.
+    assert (C1 : clean h1) by now apply clean_upd_locked.
+    assert (FIN : forall r0 G2 h2 k2,
+              ext G G2 -> heap_ok G2 h2 ->
+              (r0, (upd_nth h2 l (set_locked false), k2)) = (r, (h', k')) ->
+              exists G', ext G G' /\ heap_ok G' h').
+    { intros r0 G2 h2 k2 X2 H2 X. inversion X; subst. exists G2. split; auto.
+      now apply heap_ok_set_locked. }
+    destruct (ctrl_rel_ptr G l t rt GL) as (sc & CR).
+    destruct (run k (mkcfg (ptr l) [] h1)) as [[r0 cf] k0] eqn:Er.
+    destruct (run_session _ _ _ _ _ _ _ _ H1 C1 CR Er) as (G1 & X1 & HO1 & B1 & RO).
+    destruct r0 as [w|e|].
+    2:{ cbn in E. eapply FIN; [exact X1| |exact E]. now apply unwind_heap_ok. }
+    2:{ cbn in E. eapply FIN; [exact X1| |exact E]. now apply unwind_heap_ok. }
+    pose proof (run_val_clean _ _ _ _ _ _ C1 Er) as C0.
+    destruct RO as (v & m & VR & _).
+    destruct w as [wc we]. cbn [fst] in E. destruct wc as [tw|fl].
+    + destruct tw; cbn in E; (eapply FIN; [exact X1|exact HO1|exact E]).
+    + inversion VR as [| | |fl0 env0 defs rr FRl]; subst.
+      match type of E with context [?F fl (hp cf) k0] => set (fields := F) in * end.
+      assert (FL : forall fl0 G3 h3 k3 r3 h4 k4,
+                 (forall f lf, In (f, lf) fl0 -> In (f, lf) fl) ->
+                 ext G1 G3 -> heap_ok G3 h3 -> clean h3 ->
+                 fields fl0 h3 k3 = (r3, (h4, k4)) ->
+                 exists G4, ext G3 G4 /\ heap_ok G4 h4).
+      { clear E FIN. intros fl0.
+        induction fl0 as [|[f lf] fl0 IHfl]; intros G3 h3 k3 r3 h4 k4 SUB X3 H3 C3 E3; cbn in E3.
+        - inversion E3; subst. exists G3. split; auto using ext_refl.
+        - destruct (spine_with true unwind d k3 h3 lf) as [r5 [h5 k5]] eqn:E5.
+          destruct (fields_rel_in _ _ _ _ _ f lf FRl (SUB f lf (or_introl eq_refl))) as (ef & GLf).
+          destruct (IH _ G3 _ _ _ _ _ _ _ H3 C3 (ext_nth _ _ _ _ X3 GLf) E5) as (G5 & X5 & H5).
+          destruct (spine_good _ _ _ _ _ _ _ C3 E5) as [C5 _].
+          destruct r5 as [dv|e|]; try (inversion E3; subst; exists G5; split; auto; fail).
+          destruct (fields fl0 h5 k5) as [r6 [h6 k6]] eqn:E6.
+          destruct (IHfl G5 h5 k5 r6 h6 k6) as (G6 & X6 & H6); auto.
+          { intros f' l' I'. apply SUB. now right. }
+          { eapply ext_trans; eauto. }
+          destruct r6 as [ds|e|]; inversion E3; subst; exists G6; split; eauto using ext_trans. }
+      destruct (fields fl (hp cf) k0) as [r3 [h4 k4]] eqn:E3.
+      destruct (FL fl G1 _ _ _ _ _ (fun _ _ I => I) (ext_refl G1) HO1 C0 E3) as (G4 & X4 & H4).
+      destruct r3 as [ds|e|]; cbn in E; (eapply FIN; [eapply ext_trans; eauto|exact H4|exact E]).
+Qed.
+
 Theorem sess_step_sinv defs s i :
   sinv defs s ->
   sinv (match i with IDef x e => defs ++ [(x, e)] | _ => defs end) (fst (sess_step s i)).
 Proof.
-  intros (G & H & ER & C). destruct i as [x e|k e|k e|k x path]; unfold sess_step, sess_step_with.
+  intros (G & H & ER & C). destruct i as [x e|k e|k e|k x path|k e]; unfold sess_step, sess_step_with, sess_step_gen.
   - (* let x = e *)
     cbn [fst sheap stop]. exists (G ++ [(e, top_senv defs ENil)]). split; [|split].
     + apply heap_ok_alloc1; auto. eapply env_rel_ext; [apply ext_snoc|auto].
@@ -1139,6 +1204,20 @@ Proof.
                 (ex_intro _ (SC (Var x) (top_senv defs ENil)) (CR_tm G (Var x) (stop s) _ ER)) Eq) as (G1 & X1 & H1 & B1).
     exists G1. split; [now apply unwind_heap_ok|]. split; [eapply env_rel_ext; eauto|].
     apply (unwind_clean_thm _ _ B1).
+  - (* eval_record_spine: the main term is one fresh thunk *)
+    destruct (spine_with true unwind (S k) k (sheap s ++ [new_cell (CTm e, stop s)]) (length (sheap s)))
+      as [r [h k']] eqn:Es. cbn [fst sheap stop].
+    set (G0 := G ++ [(e, top_senv defs ENil)]).
+    assert (H0 : heap_ok G0 (sheap s ++ [new_cell (CTm e, stop s)])).
+    { apply heap_ok_alloc1; auto. eapply env_rel_ext; [apply ext_snoc|auto]. }
+    assert (C0 : clean (sheap s ++ [new_cell (CTm e, stop s)])).
+    { intros l B. apply (C l). revert B. apply blackholed_app. intros c [<-|[]]. apply new_cell_not_bh. }
+    assert (GL : nth_error G0 (length (sheap s)) = Some (e, top_senv defs ENil)).
+    { unfold G0. rewrite <- (proj1 H). now rewrite nth_error_app2, Nat.sub_diag by lia. }
+    destruct (spine_heap_ok _ _ G0 _ _ _ _ _ _ _ H0 C0 GL Es) as (G1 & X1 & H1).
+    destruct (spine_good _ _ _ _ _ _ _ C0 Es) as [C1 _].
+    exists G1. split; auto. split; auto.
+    eapply env_rel_ext; [eapply ext_trans; [apply ext_snoc|exact X1]|auto].
 Qed.
 
 Lemma defs_of_app h1 h2 : defs_of (h1 ++ h2) = defs_of h1 ++ defs_of h2.
@@ -1217,7 +1296,7 @@ Theorem session_equiv_thm (h : list input) (k : nat) (e : tm) :
 Proof.
   set (s := fst (sess_run empty_session h)).
   destruct (session_sinv h) as (G & H & ER & C). fold s in H, ER, C.
-  unfold sess_step, sess_step_with.
+  unfold sess_step, sess_step_with, sess_step_gen.
   destruct (run k (mkcfg (CTm e, stop s) [] (sheap s))) as [[r cf] k'] eqn:Er. cbn [snd].
   destruct (run_session G _ _ _ _ _ _ _ H C (CR_tm G e (stop s) _ ER) Er) as (G1 & _ & _ & _ & RO).
   assert (SP : forall n, sden (SC e (top_senv (defs_of h) ENil)) [] n
